@@ -35,7 +35,8 @@ def _ch(X, labels, K, centre):
         B += len(Xk) * float(np.sum((mk - centre) ** 2))
         Wd += float(np.sum((Xk - mk[None, :]) ** 2))
     T = X.shape[0]
-    return (B / (K - 1)) / (Wd / (T - K))
+    with np.errstate(all="ignore"):
+        return float(np.float64(B / (K - 1)) / np.float64(Wd / (T - K)))
 
 
 def ch_def(X, labels, K):
